@@ -12,13 +12,6 @@ Theorem C20_box_certificate : forall (Q1 Q2 : Type) (E1 : EqDec Q1) (E2 : EqDec 
 Proof. exact (@enfa_equiv_sound). Qed.
 Print Assumptions C20_box_certificate.
 
-(* tie to the source: the epsilon spellings of from_text and the renaming suffix, regenerated from cfg/cfg.py on every build *)
-From PFL Require Import Gen.PyConst Proofs.GenTieC20.
-Theorem C20_text_constants_from_source :
-  In (101%N :: 112%N :: 115%N :: 105%N :: 108%N :: 111%N :: 110%N :: nil) cfg_EPSILON_SYMBOLS /\ In (36%N :: nil) cfg_EPSILON_SYMBOLS.
-Proof. split; [exact (proj1 cfg_text_constants)|exact (proj1 (proj2 cfg_text_constants))]. Qed.
-Print Assumptions C20_text_constants_from_source.
-
 (* ... lifted to bodies and to the whole list of productions: reading back the printed lines gives the same productions *)
 From PFL Require Import Proofs.TextLines.
 Theorem C20_grammar_text_roundtrip : forall prods : list (sval * list gsym),
@@ -55,13 +48,6 @@ Theorem C20_fst_label_roundtrip : forall a b : str,
   occ sep_arrow (fst_label a b) = 1 -> read_fst_label (fst_label a b) = Some (a, b).
 Proof. exact fst_label_roundtrip. Qed.
 Print Assumptions C20_fst_label_roundtrip.
-
-(* tie to the source: the separators written and split on, regenerated from pda/pda.py and fst/fst.py on every build *)
-Theorem C20_label_separators_from_source :
-  pda_label_written = (sep_arrow :: sep_slash :: nil) /\ pda_label_splits = (sep_arrow :: sep_slash :: nil) /\
-  fst_label_written = (sep_arrow :: nil) /\ fst_label_splits = (sep_arrow :: nil).
-Proof. exact label_separators_from_source. Qed.
-Print Assumptions C20_label_separators_from_source.
 
 (* conversely, reading is sound: split is inverted by join, so whatever from_networkx reads from a label, the label was exactly
    the assembly of what it read (no label is read as two different transitions, no character is lost or invented) *)
